@@ -66,6 +66,20 @@ class AVec:
         return "AVec%r" % (self.items,)
 
 
+class AIter:
+    """Iterator over the elements of an exact vector (slice::Iter / IterMut): position + bounds."""
+    kind = "aiter"
+
+    def __init__(self, vec, pos, end, role="iter"):
+        self.vec = vec
+        self.pos = pos
+        self.end = end
+        self.role = role
+
+    def __repr__(self):
+        return "AIter(obj%d,%d..%d)" % (self.vec, self.pos, self.end)
+
+
 class LogVec:
     """Append-only sequence whose contents are not tracked: every push is an event.  `n` is the
     number of pushes so far (an ordinal in space ('len', obj id)); `cells` keeps the elements
@@ -132,6 +146,14 @@ class Lib:
         S.append((path(r"^<std::vec::Vec<T, A> as std::ops::Deref>::deref$|^<std::vec::Vec<T, A> as std::ops::DerefMut>::deref_mut$|^std::vec::Vec::<T, A>::as_slice$|^std::vec::Vec::<T, A>::as_mut_slice$"), self.deref))
         S.append((path(r"^core::slice::<impl \[T\]>::last$"), self.last))
         S.append((path(r"^core::slice::<impl \[T\]>::get_mut$|^core::slice::<impl \[T\]>::get$"), self.get))
+        S.append((path(r"^<&'a (mut )?std::vec::Vec<T, A> as std::iter::IntoIterator>::into_iter$|^core::slice::<impl \[T\]>::iter(_mut)?$|^std::vec::Vec::<T, A>::iter(_mut)?$"), self.slice_iter))
+        S.append((path(r"^<std::slice::Iter(Mut)?<'a, T> as std::iter::Iterator>::next$"), self.slice_iter_next))
+        S.append((path(r"^<std::slice::Iter(Mut)?<'a, T> as std::iter::DoubleEndedIterator>::next_back$"), self.slice_iter_next_back))
+        S.append((path(r"^core::slice::<impl \[T\]>::first$"), self.first))
+        S.append((path(r"^std::vec::Vec::<T, A>::remove$"), self.vec_remove))
+        S.append((path(r"^std::vec::Vec::<T, A>::swap_remove$"), self.vec_swap_remove))
+        S.append((path(r"^std::vec::Vec::<T, A>::insert$"), self.vec_insert))
+        S.append((path(r"^core::slice::<impl \[T\]>::binary_search$"), self.binary_search))
         S.append((path(r"^std::mem::swap$"), self.mem_swap))
         S.append((path(r"^std::mem::replace$"), self.mem_replace))
         S.append((path(r"^std::mem::take$"), self.mem_take))
@@ -246,6 +268,123 @@ class Lib:
             cell = st.new_obj(m.items[idx.v])
             return mk_some(rty, Ref(("H", cell.id), ()))
         raise Undecided("get(%r) on %r" % (idx, m))
+
+    # -- exact iterators ---------------------------------------------------------------------------
+    def slice_iter(self, it, st, inst, args, call):
+        try:
+            oid = _obj_of(it, st, args[0], "iter")
+        except Undecided:
+            return NotImplemented
+        m = st.heap[oid]
+        if isinstance(m, AVec):
+            return st.new_obj(AIter(oid, 0, len(m.items)))
+        return NotImplemented
+
+    def _aiter(self, it, st, ref):
+        if isinstance(ref, Ref):
+            v = it.read_path(st, ref.base, ref.proj)
+            if isinstance(v, Obj) and isinstance(st.heap.get(v.id), AIter):
+                return v.id, st.heap[v.id]
+        return None, None
+
+    def slice_iter_next(self, it, st, inst, args, call):
+        iid, a = self._aiter(it, st, args[0])
+        if a is None:
+            return NotImplemented
+        rty = ret_ty(it, call)
+        if a.pos >= a.end:
+            return mk_none(rty)
+        st.heap[iid] = AIter(a.vec, a.pos + 1, a.end)
+        st.emit("elem", a.vec, a.pos)
+        return mk_some(rty, Ref(("H", a.vec), (("el", a.pos),)))
+
+    def slice_iter_next_back(self, it, st, inst, args, call):
+        iid, a = self._aiter(it, st, args[0])
+        if a is None:
+            return NotImplemented
+        rty = ret_ty(it, call)
+        if a.pos >= a.end:
+            return mk_none(rty)
+        st.heap[iid] = AIter(a.vec, a.pos, a.end - 1)
+        st.emit("elem", a.vec, a.end - 1)
+        return mk_some(rty, Ref(("H", a.vec), (("el", a.end - 1),)))
+
+    def first(self, it, st, inst, args, call):
+        try:
+            oid = _obj_of(it, st, args[0], "first")
+        except Undecided:
+            return NotImplemented
+        m = st.heap[oid]
+        rty = ret_ty(it, call)
+        if isinstance(m, AVec):
+            return mk_some(rty, Ref(("H", oid), (("el", 0),))) if m.items else mk_none(rty)
+        return NotImplemented
+
+    def vec_remove(self, it, st, inst, args, call):
+        try:
+            oid = _obj_of(it, st, args[0], "remove")
+        except Undecided:
+            return NotImplemented
+        m = st.heap[oid]
+        if isinstance(m, AVec) and isinstance(args[1], Conc):
+            i = args[1].v
+            if i >= len(m.items):
+                st.outcome = ("panic", {"kind": "Vec::remove out of bounds", "inst": call["frame"].inst, "bb": call["frame"].bb})
+                return [(st, UNIT)]
+            st.heap[oid] = AVec(m.items[:i] + m.items[i + 1:], m.role)
+            st.emit("vec_remove", oid, i)
+            return m.items[i]
+        return NotImplemented
+
+    def vec_swap_remove(self, it, st, inst, args, call):
+        try:
+            oid = _obj_of(it, st, args[0], "swap_remove")
+        except Undecided:
+            return NotImplemented
+        m = st.heap[oid]
+        if isinstance(m, AVec) and isinstance(args[1], Conc) and args[1].v < len(m.items):
+            i = args[1].v
+            items = list(m.items)
+            out = items[i]
+            items[i] = items[-1]
+            items.pop()
+            st.heap[oid] = AVec(tuple(items), m.role)
+            return out
+        return NotImplemented
+
+    def vec_insert(self, it, st, inst, args, call):
+        try:
+            oid = _obj_of(it, st, args[0], "insert")
+        except Undecided:
+            return NotImplemented
+        m = st.heap[oid]
+        if isinstance(m, AVec) and isinstance(args[1], Conc):
+            i = args[1].v
+            if i > len(m.items):
+                st.outcome = ("panic", {"kind": "Vec::insert out of bounds", "inst": call["frame"].inst, "bb": call["frame"].bb})
+                return [(st, UNIT)]
+            st.heap[oid] = AVec(m.items[:i] + (args[2],) + m.items[i:], m.role)
+            st.emit("vec_insert", oid, i)
+            return UNIT
+        return NotImplemented
+
+    def binary_search(self, it, st, inst, args, call):
+        try:
+            oid = _obj_of(it, st, args[0], "binary_search")
+        except Undecided:
+            return NotImplemented
+        m = st.heap[oid]
+        x = args[1]
+        x = it.read_path(st, x.base, x.proj) if isinstance(x, Ref) else x
+        rty = ret_ty(it, call)
+        if isinstance(m, AVec) and isinstance(x, Conc) and all(isinstance(v, Conc) for v in m.items):
+            vals = [v.v for v in m.items]
+            st.emit("binary_search", oid, x.v)
+            if x.v in vals:
+                return Agg(rty, 0, (Conc(vals.index(x.v)),))
+            pos = sum(1 for v in vals if v < x.v)
+            return Agg(rty, 1, (Conc(pos),))
+        return NotImplemented
 
     # -- mem ------------------------------------------------------------------------------------
     def mem_swap(self, it, st, inst, args, call):
